@@ -2,4 +2,4 @@ From Coq Require Import Extraction ExtrOcamlBasic.
 From SV Require Import Base.Bytes Model.Headers Model.IOSched Spec.ChunkDecode Model.Chunked Spec.RespParse Model.Response Model.WriteFail.
 Extraction Language OCaml.
 Extraction "c08_model.ml" write_http_response conn_write_response conn_exchange oracle_c08_ser oracle_c08_conn conn_session oracle_c08_session prefix_resp_ok
-  event_message_bytes closes writer_all.
+  event_message_bytes piece_max_N closes writer_all.
